@@ -129,6 +129,8 @@ def _handler_shape(h: ast.ExceptHandler) -> Optional[str]:
     arg = appends[0].args[0] if appends[0].args else None
     if not (isinstance(arg, ast.Tuple) and len(arg.elts) == 2 and unparse(arg.elts[0]) == "rule" and unparse(arg.elts[1]) == name):
         return f"collected record is {unparse(arg) if arg is not None else None}, not (rule, {name})"
+    if not any(isinstance(s_, ast.Expr) and s_.value is appends[0] for s_ in i.body):
+        return "the record is appended only under a further condition (e.g. not already in self.errors — records compare by content, so the later of two equal failing rules gets none): exactly one record per failing rule"
     rets = [s for s in i.body if isinstance(s, ast.Return)]
     if not rets or not (isinstance(rets[-1].value, (ast.List, ast.Tuple)) and not rets[-1].value.elts
                         or (isinstance(rets[-1].value, ast.Call) and call_name(rets[-1].value) == "list" and not rets[-1].value.args)):
